@@ -31,13 +31,27 @@ def group_key(vals, dtype):
 
 def exec_affine(case, tagroot="affine"):
     out = Outcome()
+    x, gid, ng, names = R.build(case)
+    _judge(out, case, x, gid, ng, names, tagroot)
+    if not out.failures and case.get("again", True):
+        # the SAME tensor object quantized again after an in-place update (an optimizer step, a weight reload): the result
+        # must be that of its current values
+        c2 = dict(case, seed=case["seed"] + 1, classes=[(c + 3) % R.NCLS for c in case["classes"]], mags=[((m + 8) % 11) - 6 for m in case["mags"]])
+        y, _, _, names2 = R.build(c2)
+        keep = (out.klass, out.nontrivial, out.fingerprint)
+        x.copy_(y)
+        _judge(out, case, x, gid, ng, names2, tagroot, stage="after-inplace-update/")
+        out.klass, out.nontrivial, out.fingerprint = keep
+    return out
+
+
+def _judge(out, case, x, gid, ng, names, tagroot, stage=""):
     dtype = gen.DT[case["dtype"]]
     qtype = O.QTALL[case["qtype"]]
     bits = qtype.bits
-    x, gid, ng, names = R.build(case)
     axis, gs = case["axis"], case["group_size"]
     q = cut(quantize_weight, x, qtype, axis, gs)
-    tag = f"{tagroot}/{qtype.name}"
+    tag = f"{tagroot}/{stage}{qtype.name}"
     out.klass = [f"group-{n}" for n in set(names)] + [f"axis{axis}", f"rank{x.ndim}", "grouped" if gs else "per-axis", case["dtype"], "layout-" + case.get("mem", ["contig"])[0]]
     out.nontrivial = any(n not in STRADDLING for n in names) and any(n in STRADDLING for n in names)
     out.fingerprint = [case["dtype"], case["qtype"], axis, case["shape"], gs, case.get("mem", ["contig"])[0], [names[i] for i in range(min(ng, 8))]]
@@ -65,7 +79,8 @@ def exec_affine(case, tagroot="affine"):
             m = bad & (gid == gk)
             i = int(torch.nonzero(m.reshape(-1))[0])
             out.fail(
-                f"{tagroot}/bound/{key}",
+                # (groups reaching the dtype's maximum are the recorded finding whatever the stage)
+                f"{tagroot}/{'' if key == 'range-reaches-dtype-max' else stage}bound/{key}",
                 f"{qtype.name} {case['dtype']} group [{lo[gk].item():.6g},{hi[gk].item():.6g}] ({names[gk]}): x={x64.reshape(-1)[i].item()!r} dequantized={d64.reshape(-1)[i].item()!r} "
                 f"error={err.reshape(-1)[i].item():.4g} > bound {bound.reshape(-1)[i].item():.4g} (half step {step.reshape(-1)[i].item() / 2:.4g})",
             )
